@@ -19,7 +19,7 @@ from __future__ import annotations
 import copy
 import enum
 
-from mc.env import World, BASE_TIME, SeqRLock, SeqLock
+from mc.env import World, BASE_TIME, SeqRLock, SeqLock, ENV
 from mc.worlds.stations import iso
 
 from flexstack.facilities.vru_awareness_service import vru_awareness_service as _VS
@@ -68,6 +68,77 @@ class LatticeWorld(World):
         if t is None:
             return None
         return int(round((self.now - t) / TICK))
+
+
+# ------------------------------------------------------------------------------------------------
+# random draws of the code under test = harness choices that depend on the REQUESTED bounds
+# ------------------------------------------------------------------------------------------------
+DRAW_MENU = ("lo", "hi", "lo+1", "hi-1", "seen")
+
+
+def draw_int(choice, a, b, in_use=(), n_prev=0):
+    """Answer to ``random.randint(a, b)`` asked by FlexStack.  The menu is symbolic and resolved against the bounds
+    the code really asks for, so an off-by-one in either bound is reached: lo = a, hi = b, lo+1, hi-1, seen = first
+    draw collides with a value in use inside [a, b] (later draws avoid the values in use), mid / an integer = that
+    value clamped into [a, b]."""
+    a, b = int(a), int(b)
+    if choice == "lo":
+        return a
+    if choice == "hi":
+        return b
+    if choice == "lo+1":
+        return min(a + 1, b)
+    if choice == "hi-1":
+        return max(b - 1, a)
+    if choice == "seen":
+        inside = [v for v in sorted(in_use) if a <= v <= b]
+        if inside and n_prev == 0:
+            return inside[0]
+        v = a + ((b - a) * 3) // 4 + n_prev % 16
+        while v in in_use and v < b:
+            v += 1
+        return min(max(v, a), b)
+    v = (a + b) // 2 if choice == "mid" else int(choice)
+    return min(max(v, a), b)
+
+
+def draw_uniform(choice, a, b):
+    """Answer to ``random.uniform(a, b)``: the two bounds and the midpoint."""
+    if choice in ("lo", "lo+1"):
+        return a
+    if choice in ("hi", "hi-1"):
+        return b
+    return (a + b) / 2.0
+
+
+class Draws:
+    """``with Draws(choice, in_use) as d:`` owns ENV.rand_int / ENV.rand_uniform for the calls made inside;
+    ``d.asked`` records (kind, a, b, answer)."""
+
+    def __init__(self, choice, in_use=()):
+        self.choice = choice
+        self.in_use = tuple(in_use)
+        self.asked = []
+
+    def _int(self, a, b):
+        v = draw_int(self.choice, a, b, self.in_use, len(self.asked))
+        self.asked.append(("int", a, b, v))
+        return v
+
+    def _uniform(self, a, b):
+        v = draw_uniform(self.choice, a, b)
+        self.asked.append(("uniform", a, b, v))
+        return v
+
+    def __enter__(self):
+        self._old = (ENV.rand_int, ENV.rand_uniform)
+        ENV.rand_int = staticmethod(self._int)
+        ENV.rand_uniform = staticmethod(self._uniform)
+        return self
+
+    def __exit__(self, *exc):
+        ENV.rand_int = staticmethod(self._old[0])
+        ENV.rand_uniform = staticmethod(self._old[1])
 
 
 # ------------------------------------------------------------------------------------------------
